@@ -207,6 +207,26 @@ Lemma framenum_shape_eq fuel v spf fo nf value fs fe :
   framenum_shape fuel v spf fo nf value fs fe = framenum true true fuel v spf fo nf value fs fe.
 Proof. reflexivity. Qed.
 
+(* _GD_Extrapolate: two samples at limit - eof, n < 2 => GD_E_DOMAIN, else the extrapolation formula *)
+Definition extrapolate_shape (v : Z -> option Q) (value : Q) (limit : Z) (eof : bool) : result :=
+  let p := if eof then limit - 1 else limit in
+  let '(n, (d0, d1)) := match v p, v (p + 1) with
+                        | Some a, Some b => (2, (a, b))
+                        | Some a, None => (1, (a, 0%Q))
+                        | None, _ => (0, (0%Q, 0%Q))
+                        end in
+  let e := mkEnv 0 0 0 n 0 0 0 (if eof then 1 else 0) limit 0 0 0 0 value 0 0 0 0 d0 d1 0 in
+  if ex_c1 e then EDomain
+  else if Qeq_bool (d1 - d0) 0 then NonFinite else Ok (ex_a0 e).
+
+Lemma extrapolate_shape_eq v value limit eof : extrapolate_shape v value limit eof = extrapolate v value limit eof.
+Proof.
+  unfold extrapolate_shape, extrapolate, qdiv_res, ex_c1, ex_a0.
+  destruct eof; simpl;
+    match goal with |- context [v ?a] => destruct (v a) as [x|] end; simpl; try reflexivity;
+    match goal with |- context [v ?a] => destruct (v a) as [y|] end; simpl; reflexivity.
+Qed.
+
 Theorem shape_get_index : forall fuel v value fs fe,
   get_index_shape fuel v value fs fe = get_index true true fuel v value fs fe.
 Proof. exact get_index_shape_eq. Qed.
